@@ -62,6 +62,8 @@ type PFCPConn struct {
 	shutdown chan struct{}
 	// shutdownOnce makes Shutdown idempotent: several teardown triggers may fire for one connection
 	shutdownOnce sync.Once
+	// handleMu serialises the handling of a message with the session clean-up of Shutdown
+	handleMu sync.Mutex
 
 	metrics.InstrumentPFCP
 
@@ -265,6 +267,10 @@ func (pConn *PFCPConn) doShutdown() {
 	}
 
 	pConn.hbMu.Unlock()
+
+	// A message that is being handled finishes first; later ones find shutdown closed.
+	pConn.handleMu.Lock()
+	defer pConn.handleMu.Unlock()
 
 	// Cleanup all sessions in this conn
 	for _, sess := range pConn.store.GetAllSessions() {
